@@ -8,6 +8,7 @@ witnesses and evidence samples.
 from __future__ import annotations
 
 import datetime
+import math
 import random
 import uuid
 from pathlib import Path
@@ -184,7 +185,9 @@ class GraphGen:
     def recording(self, subdir=None, outside=False):
         def make():
             r = self.rng
-            name = r.choice(["rec.wav", "with space.wav", "ünï_音.flac", "a.b.c.wav", "REC_001.WAV", "trailing space.wav ", "\u3000wide.wav"])
+            name = r.choice(["rec.wav", "with space.wav", "ünï_音.flac", "a.b.c.wav", "REC_001.WAV", "trailing space.wav ", "\u3000wide.wav",
+                             # characters that mean something to other systems but are plain file-name characters here
+                             "take\\1.wav", "a:b.wav", "100%.wav", "#1 ?.wav", "C:\\rec.wav"])
             sub = subdir if subdir is not None else r.choice(["", "site1", "site 2/night", "a/b/c/d", "ünï", " leading space dir", "\u3000ideographic", "dir /x",
                                                              # spellings a user-typed or joined path can have: a '..' hop between two
                                                              # sub-directories and a sub-directory that is a symbolic link (LINK_DIR ->
@@ -200,14 +203,15 @@ class GraphGen:
                              self.audio_root.parent, self.audio_root.parent / "sibling"]
             root = r.choice(outside_roots) if out else self.audio_root
             path = root / sub / f"{lead}{r.getrandbits(24):06x}_{name}"
-            te = r.choice([1.0, 1.0, 10.0, 0.5, 2.5]) if self.opt() else 1.0
+            # (values a hair away from the default that AOEF omits: they are not the default)
+            te = r.choice([1.0, 1.0, 10.0, 0.5, 2.5, math.nextafter(1.0, 2.0), math.nextafter(1.0, 0.0), 1.0000000005]) if self.opt() else 1.0
             return self.data.Recording(
                 uuid=self.uid(), path=path, duration=r.choice([1.0, 10.0, 0.123, 3600.5]), channels=r.choice([1, 2, 4]),
                 samplerate=r.choice([8000, 22050, 44100, 48000, 192000, 384000]), time_expansion=te,
                 hash=r.choice([f"{r.getrandbits(128):032x}", ""]) if self.opt() else None,
                 date=datetime.date(r.randint(1999, 2030), r.randint(1, 12), r.randint(1, 28)) if self.opt() else None,
                 time=datetime.time(r.randint(0, 23), r.randint(0, 59), r.randint(0, 59), r.choice([0, r.randint(0, 999999)])) if self.opt() else None,
-                latitude=r.choice([0.0, -0.0, r.uniform(-90, 90)]) if self.opt() else None,
+                latitude=r.choice([0.0, -0.0, r.uniform(-90, 90), 5e-324, -1e-300]) if self.opt() else None,
                 longitude=r.choice([0.0, r.uniform(-180, 180), 180.0]) if self.opt() else None,
                 license=r.choice(["CC-BY-4.0", "proprietary ✓", ""]) if self.opt() else None,
                 owners=[self.user() for _ in range(r.choice([1, 2]))] if self.opt() else [],
@@ -312,9 +316,19 @@ class GraphGen:
     # ------------------------------------------------------------ evaluations
     def clip_evaluation(self):
         r = self.rng
-        clip = self.clip()
-        ann = self.clip_annotation(clip)
-        pred = self.clip_prediction(clip)
+        # one ground truth scored against several model outputs, one output scored against several annotators: a clip
+        # annotation / prediction may be shared by several clip evaluations
+        prev = getattr(self, "_clip_evals", [])
+        ann = pred = None
+        if prev and self.opt(self.p_share * 0.6):
+            other = r.choice(prev)
+            if r.random() < 0.5:
+                ann = other.annotations
+            else:
+                pred = other.predictions
+        clip = (ann or pred).clip if (ann or pred) is not None else self.clip()
+        ann = ann or self.clip_annotation(clip)
+        pred = pred or self.clip_prediction(clip)
         a, p = list(ann.sound_events), list(pred.sound_events)
         r.shuffle(a)
         r.shuffle(p)
@@ -333,8 +347,10 @@ class GraphGen:
                     tgt = a.pop()
             matches.append(self.data.Match(uuid=self.uid(), source=src, target=tgt, affinity=self.unit() if (src and tgt) else 0.0,
                                            score=self.unit() if self.opt() else None, metrics=self.features()))
-        return self.data.ClipEvaluation(uuid=self.uid(), annotations=ann, predictions=pred, matches=matches, metrics=self.features(),
-                                        score=self.unit() if self.opt() else None)
+        ce = self.data.ClipEvaluation(uuid=self.uid(), annotations=ann, predictions=pred, matches=matches, metrics=self.features(),
+                                      score=self.unit() if self.opt() else None)
+        self._clip_evals = prev + [ce]
+        return ce
 
     # ------------------------------------------------------------ collections
     def build(self, kind):
